@@ -96,11 +96,22 @@ def sporkStep (s : SporkSt) : List String → Option (SporkSt × String)
     let out := sortStrs (un.map (fun sp => s.ids.getD sp.id "?"))
     pure (s, if out.isEmpty then "none" else ",".intercalate out)
   | ["S-avail", h, key] => do
+    -- send-time availability for a block acknowledging the momentum of height h: decided by the REVIEWED gate table
+    -- (Model/Spork.lean introducedBy / availableSpec), which Props/C17Table.lean tables_exact ties to the regenerated
+    -- tables of the real GetEmbeddedMethod; a method the reviewed table does not know is a parse error (never a default)
     let h ← h.toNat?
-    let m ← Gen.methodNames.findIdx? (· == key)
     let st := stateAt s h
-    let r := regime (activeOpt st h s.acc) (activeOpt st h s.bridge) (activeOpt st h s.htlc)
-    pure (s, showBool (available r m))
+    let a ← availableSpec (activeOpt st h s.acc) (activeOpt st h s.bridge) (activeOpt st h s.htlc) key
+    pure (s, showBool a)
+  | ["S-exec", h, key, effect, designed] => do
+    -- a contract receive acknowledging the momentum of height h answered a call of the method: `effect` = it changed the
+    -- contract's storage or emitted a block other than the refund, `designed` = built to take effect when the feature is on
+    let h ← h.toNat?
+    let effect ← (if effect = "true" then some true else if effect = "false" then some false else none)
+    let designed ← (if designed = "true" then some true else if designed = "false" then some false else none)
+    let st := stateAt s h
+    let v ← execVerdict (activeOpt st h s.acc) (activeOpt st h s.bridge) (activeOpt st h s.htlc) key effect designed
+    pure (s, v)
   | ["S-halt-child"] => some (s, "exit=2 detected=true continued=false")
   | _ => none
 
